@@ -494,10 +494,22 @@ theorem percentile_no_prune_of_best (c : PercentileCfg) (d : Dir) (trials : List
                   · exact xle_not_xlt h
                 | maximize =>
                   simp only at hpn ⊢
-                  rcases npPercentile_upper (m := bestOverSteps t .maximize) (q := 100 - c.q) (by grind)
-                      (fun u hu hn => hbest stp hs u hu hn) with h | h
-                  · rw [h] at hpn; simp at hpn
-                  · exact xle_not_xlt h
+                  -- the percentile of the negated values is at least `-best`; negate back
+                  have hneg : ∀ a b : XVal, XVal.le (xneg a) (xneg b) = XVal.le b a := by
+                    intro a b; cases a <;> cases b <;> simp [XVal.le, xneg]
+                  have hnn : ∀ a : XVal, xisNan (xneg a) = xisNan a := by intro a; cases a <;> rfl
+                  have hnegneg : ∀ a : XVal, xneg (xneg a) = a := by intro a; cases a <;> simp [xneg]
+                  rcases npPercentile_lower (m := xneg (bestOverSteps t .maximize))
+                      (vals := (valuesAtStep (completedTrials trials) stp).map xneg) hq0
+                      (fun u hu hn => by
+                        obtain ⟨w, hw, rfl⟩ := List.mem_map.mp hu
+                        rw [hneg]
+                        exact hbest stp hs w hw (by rw [← hnn]; exact hn)) with h | h
+                  · rw [hnn, h] at hpn; simp at hpn
+                  · have : XVal.le (xneg (npPercentile ((valuesAtStep (completedTrials trials) stp).map xneg) c.q))
+                        (bestOverSteps t .maximize) = true := by
+                      rw [← hnegneg (bestOverSteps t .maximize), hneg]; exact h
+                    exact xle_not_xlt this
 
 /-! ## strictly best ⇒ never pruned: successive halving without bootstrap (per call) -/
 
